@@ -587,3 +587,105 @@ fn md5_digest(input: &[u8]) -> [u8; 16] {
     out.copy_from_slice(&result);
     out
 }
+
+// ---------------------------------------------------------------------------------------------
+// Verification hooks (compiled only with `--cfg rustrtc_verif`): lets the external harness build
+// a `TurnClient` over a socket it controls and call the `pub(crate)` request builders (C16).
+#[cfg(rustrtc_verif)]
+impl TurnClient {
+    pub fn verif_new_udp(socket: Arc<UdpSocket>, server: SocketAddr) -> Self {
+        Self {
+            transport: TurnTransport::Udp { socket, server },
+            auth: SyncMutex::new(None),
+            channels: Mutex::new(HashMap::new()),
+            channel_map: Mutex::new(HashMap::new()),
+            next_channel: Mutex::new(0x4000),
+        }
+    }
+    pub fn verif_new_tcp(stream: TcpStream) -> Self {
+        let (read, write) = stream.into_split();
+        Self {
+            transport: TurnTransport::Tcp {
+                read: Arc::new(Mutex::new(read)),
+                write: Arc::new(Mutex::new(write)),
+            },
+            auth: SyncMutex::new(None),
+            channels: Mutex::new(HashMap::new()),
+            channel_map: Mutex::new(HashMap::new()),
+            next_channel: Mutex::new(0x4000),
+        }
+    }
+    /// Install the long-term credential state exactly as a successful `allocate` does.
+    pub fn verif_set_auth(&self, username: &str, password: &str, realm: &str, nonce: &str) {
+        let key = long_term_key(username, realm, password);
+        *self.auth.lock() = Some(TurnAuthState::with_key(
+            username.to_string(),
+            password.to_string(),
+            realm.to_string(),
+            nonce.to_string(),
+            key,
+        ));
+    }
+    pub fn verif_clear_auth(&self) {
+        *self.auth.lock() = None;
+    }
+    pub fn verif_auth_key(&self) -> Option<Vec<u8>> {
+        self.auth.lock().as_ref().map(|a| a.key.clone())
+    }
+    pub async fn verif_set_next_channel(&self, n: u16) {
+        *self.next_channel.lock().await = n;
+    }
+    pub async fn verif_next_channel(&self) -> u16 {
+        *self.next_channel.lock().await
+    }
+    pub async fn verif_allocate(&self, username: &str, password: &str) -> Result<(SocketAddr, u32)> {
+        let a = self
+            .allocate(TurnCredentials {
+                username: username.to_string(),
+                password: password.to_string(),
+            })
+            .await?;
+        Ok((a.relayed_address, a.lifetime_secs))
+    }
+    pub async fn verif_create_permission(&self, peer: SocketAddr) -> Result<()> {
+        self.create_permission(peer).await
+    }
+    pub async fn verif_create_permission_packet(&self, peer: SocketAddr) -> Result<(Vec<u8>, [u8; 12])> {
+        self.create_permission_packet(peer).await
+    }
+    pub async fn verif_create_channel_bind_packet(&self, peer: SocketAddr) -> Result<(Vec<u8>, [u8; 12], u16)> {
+        self.create_channel_bind_packet(peer).await
+    }
+    pub async fn verif_create_channel_rebind_packet(&self, peer: SocketAddr, channel: u16) -> Result<(Vec<u8>, [u8; 12])> {
+        self.create_channel_rebind_packet(peer, channel).await
+    }
+    pub async fn verif_create_refresh_packet(&self) -> Result<(Vec<u8>, [u8; 12])> {
+        self.create_refresh_packet().await
+    }
+    pub fn verif_create_destroy_packet(&self) -> Result<(Vec<u8>, [u8; 12])> {
+        self.create_destroy_packet_sync()
+    }
+    pub async fn verif_update_nonce(&self, realm: &str, nonce: &str) {
+        self.update_nonce(realm.to_string(), nonce.to_string()).await
+    }
+    pub async fn verif_send_indication(&self, peer: SocketAddr, data: &[u8]) -> Result<()> {
+        self.send_indication(peer, data).await
+    }
+    pub async fn verif_send_channel_data(&self, channel: u16, data: &[u8]) -> Result<()> {
+        self.send_channel_data(channel, data).await
+    }
+    pub async fn verif_add_channel(&self, peer: SocketAddr, channel: u16) {
+        self.add_channel(peer, channel).await
+    }
+    pub async fn verif_get_peer(&self, channel: u16) -> Option<SocketAddr> {
+        self.get_peer(channel).await
+    }
+    pub async fn verif_recv(&self, buf: &mut [u8]) -> Result<usize> {
+        self.recv(buf).await
+    }
+}
+
+#[cfg(rustrtc_verif)]
+pub fn verif_long_term_key(username: &str, realm: &str, password: &str) -> Vec<u8> {
+    long_term_key(username, realm, password)
+}
